@@ -8,6 +8,7 @@ import (
 	"errors"
 	"hash/crc32"
 	"io"
+	"os"
 	"math"
 	"strings"
 
@@ -425,4 +426,20 @@ func ForgeCRC(prefix []byte, target uint32) []byte {
 		c = tab[idx[k]] ^ (c >> 8)
 	}
 	return out
+}
+
+// Focus: bin/check's extended search (after a broken correspondence) sets VERIF_FOCUS_KINDS to the
+// generator kinds of the differing cases; a harness then spends its run on those kinds only.
+var focusKinds map[string]bool
+
+func Focus(kind string) bool {
+	if focusKinds == nil {
+		focusKinds = map[string]bool{}
+		for _, k := range strings.Split(os.Getenv("VERIF_FOCUS_KINDS"), ",") {
+			if k != "" {
+				focusKinds[k] = true
+			}
+		}
+	}
+	return len(focusKinds) == 0 || focusKinds[kind]
 }
